@@ -315,6 +315,10 @@ func (e *storeEnv) holds(tid int) bool {
 }
 
 func (e *storeEnv) registered(d digest.Digest) bool {
+	if e.x.Free() {
+		// Race pass: the dump hook reads without the store's lock.
+		return false
+	}
 	for _, i := range e.dump() {
 		if i.Registered && i.Digest == d.String() {
 			return true
@@ -617,7 +621,6 @@ const (
 	allAtOnce arrivalMode = iota
 	afterWait
 	afterPut
-	afterStart // request k+1 arrives at any time after request k has arrived
 )
 
 type storeScenario struct {
@@ -708,7 +711,7 @@ func (sc *storeScenario) scenario() *mc.Scenario {
 						e.mu.Lock()
 						d := done[e.arrived]
 						e.mu.Unlock()
-						return d || sc.sequenced == afterStart || f.waiting(e.arrived, sc.sequenced == afterPut)
+						return d || f.waiting(e.arrived, sc.sequenced == afterPut)
 					},
 					Fire: func() {
 						e.arrived++
